@@ -7,6 +7,7 @@ package sstls
 
 // ---- fingerprint = base64std(sha256(PKIX(SubjectPublicKeyInfo of the cert))) (C05)
 //@ func PubkeyFingerprint(cert) (fp, err)
+//@   locals cert b err h
 //@   props C05 C13
 //@   ghost der []byte = nil
 //@   ghost derErr bool = false
@@ -20,6 +21,7 @@ package sstls
 //@   ensures fingerprint: imp(!derErr, err == nil && stage == 3 && fp == out)
 
 //@ func PubkeyFingerprintTLS(cert) (fp, err)
+//@   locals cert
 //@   props C05
 //@   ghost inner string = ""
 //@   ghost innerErr error = nil
@@ -31,6 +33,7 @@ package sstls
 // Listen: the fingerprint published is that of the very certificate value
 // handed to crypto/tls as the only certificate.
 //@ func Listen(net, address, subject, lifespan, certFile) (l, err)
+//@   locals net address subject lifespan certFile l cert err
 //@   props C05 C08
 //@   ghost cert tls.Certificate
 //@   ghost certErr bool = false
@@ -48,6 +51,7 @@ package sstls
 
 // ---- certificate cache (C08)
 //@ func GetCertificate(subject, dnsNames, ipAddresses, lifespan, certFile) (cert, err)
+//@   locals subject dnsNames ipAddresses lifespan certFile cert err certPEM keyPEM cert err err
 //@   props C08
 //@   ghost loaded tls.Certificate
 //@   ghost loadErr error = nil
@@ -69,6 +73,7 @@ package sstls
 //@   ensures consulted: imp(certFile != "", nLoad == 1)
 
 //@ func LoadCachedCertificate(certFile) (cert, err)
+//@   locals certFile ta err certB keyB f cert leaf
 //@   props C08 C05
 //@   ghost readErr error = nil
 //@   ghost nRead int = 0
@@ -95,6 +100,7 @@ package sstls
 //@   ensures success: imp(err == nil, nPair == 1 && !pairErr && !leafErr && cert.Leaf == leaf && leaf != nil && cert.Certificate == pair.Certificate && cert.PrivateKey == pair.PrivateKey)
 
 //@ func SaveCertificate(certFile, certPEM, keyPEM) (err)
+//@   locals certFile certPEM keyPEM dn err err
 //@   props C08
 //@   ghost mkErr bool = false
 //@   ghost nMk int = 0
@@ -113,6 +119,7 @@ package sstls
 // encodes the very private key whose public half was certified, and the
 // certificate is self-signed with that key.
 //@ func generateSelfSignedCert(subject, dnsNames, ipAddresses, notAfter) (certPEM, keyPEM, cert, err)
+//@   locals subject dnsNames ipAddresses notAfter priv err keyUsage notBefore serialNumberLimit serialNumber template derBytes certPEM privBytes keyPEM cert leaf
 //@   props C08 C05
 //@   ghost nKey int = 0
 //@   ghost der []byte = nil
@@ -135,6 +142,7 @@ package sstls
 //@   ensures returns_the_blocks_it_parsed: imp(err == nil, nPair == 1 && certPEM == cpem && keyPEM == kpem && cert.Certificate == pair.Certificate && cert.PrivateKey == pair.PrivateKey && cert.Leaf == leaf && leaf != nil)
 
 //@ func GenerateSelfSignedCertificate(subject, dnsNames, ipAddresses, lifespan) (certPEM, keyPEM, cert, err)
+//@   locals subject dnsNames ipAddresses lifespan certPEM keyPEM cert err
 //@   props C08 C05
 //@   ghost n int = 0
 //@   ghost rc []byte = nil
